@@ -1693,6 +1693,12 @@ class FortranReaderBase:
             )
             logging.getLogger(__name__).error(message)
         line_content = "".join(lines).strip()
+        if name is not None and line_content.startswith(":"):
+            # The ':' after the leading word was the first half of a '::'
+            # that the continuation split ('optional :&' / '&: x'), not the
+            # end of a construct name.
+            line_content = name + " :" + line_content
+            name = None
         if name is None and len(lines) > 1:
             # The construct name (or the ':' that follows it) may be on a
             # continuation line, in which case it was not found when the
